@@ -757,6 +757,9 @@ func (i *interpreter) formatArg(verb byte, a value) string {
 	if verb == 'T' {
 		return it.t.String()
 	}
+	if containsSym(it.v, 3) {
+		return "<symbolic " + it.t.String() + ">"
+	}
 	if verb != 'd' && verb != 'x' && verb != 'p' {
 		var out string
 		done := false
@@ -954,4 +957,37 @@ func extPrefixString(fr *frame, a []value) value {
 	out := append(strBytes(tag), bs...)
 	out = append(out, p[1])
 	return mkStr(out)
+}
+
+// containsSym reports whether v holds symbolic data (following pointers up to depth levels).
+func containsSym(v value, depth int) bool {
+	switch v := v.(type) {
+	case *Sym, symstr:
+		return true
+	case structure:
+		for _, f := range v {
+			if containsSym(f, depth) {
+				return true
+			}
+		}
+	case array:
+		for _, f := range v {
+			if containsSym(f, depth) {
+				return true
+			}
+		}
+	case []value:
+		for _, f := range v {
+			if containsSym(f, depth) {
+				return true
+			}
+		}
+	case iface:
+		return containsSym(v.v, depth)
+	case *value:
+		if v != nil && depth > 0 {
+			return containsSym(*v, depth-1)
+		}
+	}
+	return false
 }
